@@ -44,7 +44,18 @@ func genLRU(r *kit.Rand, tier kit.Tier) lruCase {
 	return c
 }
 
-func lruKey(k int) string { return lruset.KeyString(uint64(k%3), uint64(k)*4096) }
+// keys are plain strings to the set: mostly the consumers' KeyString form, plus the
+// empty string and one that needs escaping in JSON
+func lruKey(k int) string {
+	switch k {
+	case 7:
+		return ""
+	case 8:
+		return "a\"b\\\u00e9\n<&>\x00"
+	}
+
+	return lruset.KeyString(uint64(k%3), uint64(k)*4096)
+}
 
 func execLRU(c lruCase, _ *kit.Env) kit.Outcome {
 	var out kit.Outcome
